@@ -12,7 +12,7 @@ INFO = {
                "integer OR of two literals; that an integer literal becomes an integer payload by a direct integer "
                "parse of the right width and a double goes through the one f64->JSON normalisation whose "
                "integrality window is exact (signed zeros included); input is pulled one byte at a time through io::Bytes "
-               "and a short read is never taken for the end of input.",
+               "and a short read is never taken for the end of input. No stage but the limiter can stop the read loop (Break origin).",
     "not_decided": "That values come out unchanged as a whole (UTF-8 decoding by String::from_utf8, str::parse, one "
                    "row per value at run time): those are run-time value statements.",
     "trusted": ["sa/tables/rfc8259.toml (transcribed from RFC 8259)", "std: str::parse::<u64|i64|f64>, String::from_utf8"],
@@ -31,6 +31,9 @@ def run(ctx, rep):
     NR.int_ctor(rep, lib)
     NR.float_window(rep, lib)
     NR.float_ctor(rep, lib)
+    # nothing but the limiter may stop the read loop: a Break from anywhere else silently drops the values that follow
+    from rules import pipeline_rules as _PL
+    _PL.break_origin(rep, lib)
     # the bytes reach the tokenizer one at a time and end of input is only the exhausted source; every parsed value
     # is handed to the pipeline once, in the turn that parsed it (shared with C16 / C17)
     from rules import c16, c17
